@@ -312,8 +312,10 @@ def substitute(exprs, repl):  # noqa: C901
             didrepl = True
         if didrepl:
             changed = True
-            if expr is None:
-                continue
+            if expr is not None:
+                # insert the replacement as is, do not substitute within it
+                args[-1].append(expr)
+            continue
 
         if visited:
             children = args.pop()
